@@ -698,5 +698,6 @@ func TestC16(t *testing.T) {
 	w.Close()
 	ev.Exhaustive()
 	ev.Sample(map[string]interface{}{"example_names": names[:12], "example_probe": "vipnode_update with params [\"sig\",\"<id>\",<nonce>] (too-few:3-of-4)"})
+	c16FailurePaths(ev)
 	finish(t, ev)
 }
